@@ -506,14 +506,22 @@ def update (i : IIndex) (ents : List (Key × Rows)) : M IIndex :=
   if ents.any (fun e => e.1.length != i.ndim) then throw (.indexError "update key arity") else
   unionUpdate { i with entries := updMask i ents } (ents.filter (fun e => val0 e.1 != i.common))
 
-/-- `column_stack(iindexes, new_common, copy)`; sparsities in exact arithmetic -/
-def columnStack (ixs : List IIndex) (newCommon : Option Int) : M IIndex := do
-  match ixs with
-  | [] => throw (.indexError "column_stack of nothing")
-  | first :: _ =>
-  if ixs.any (fun x => x.nrows ≠ first.nrows) then
-    throw (.valueError "Cannot column_stack indexes with different number of rows.")
-  let nc ← match newCommon with
+/-- number of columns an input contributes to `column_stack` -/
+def stackWidth (x : IIndex) : Nat := if x.ndim > 1 then x.shape.getD 1 0 else 1
+
+/-- the entries of one (already shifted) input, re-keyed into the stacked column space at offset `off` -/
+def stackKeys (x : IIndex) (off : Nat) : List (Key × Rows) :=
+  x.entries.map fun e => ([val0 e.1, (if x.ndim > 1 then e.1.getD 1 0 else 0) + (off : Int)], e.2)
+
+/-- one input of `column_stack`: shift it to the common value of the stack, then add its entries -/
+def stackStep (nc : Int) (acc : List (Key × Rows) × Nat) (x : IIndex) : M (List (Key × Rows) × Nat) := do
+  let x' ← if x.common != nc then shiftCommon x (some nc) else pure x
+  pure ((stackKeys x' acc.2).foldl (fun es e => dset es e.1 e.2) acc.1, acc.2 + stackWidth x')
+
+/-- the common value of the stack: the caller's, or the one with the largest summed sparsity x columns
+(exact fractions, compared by cross-multiplying; ties to the larger value) -/
+def stackCommon (ixs : List IIndex) (newCommon : Option Int) : M Int :=
+  match newCommon with
     | some c => pure c
     | none =>
       -- sparsity * columns, as the exact fraction (100 * n_common * cols) / numcells; compare by cross-multiplying
@@ -534,15 +542,16 @@ def columnStack (ixs : List IIndex) (newCommon : Option Int) : M IIndex := do
       match tbl with
       | [] => throw (.indexError "empty")
       | t :: ts => pure (ts.foldl (fun best x => if gt x best then x else best) t).1
-  let (es, _) ← ixs.foldlM (fun (acc : List (Key × Rows) × Nat) (x : IIndex) => do
-    let x' ← if x.common != nc then shiftCommon x (some nc) else pure x
-    if x'.ndim > 1 then
-      let es := x'.entries.foldl (fun es (e : Key × Rows) => dset es [val0 e.1, e.1.getD 1 0 + (acc.2 : Int)] e.2) acc.1
-      pure (es, acc.2 + x'.shape.getD 1 0)
-    else
-      let es := x'.entries.foldl (fun es (e : Key × Rows) => dset es [val0 e.1, (acc.2 : Int)] e.2) acc.1
-      pure (es, acc.2 + 1)) ([], 0)
-  let total := ixs.foldl (fun n x => n + (if x.ndim > 1 then x.shape.getD 1 0 else 1)) 0
+
+/-- `column_stack(iindexes, new_common, copy)`; sparsities in exact arithmetic -/
+def columnStack (ixs : List IIndex) (newCommon : Option Int) : M IIndex := do
+  match ixs with
+  | [] => throw (.indexError "column_stack of nothing")
+  | first :: _ =>
+  if ixs.any (fun x => x.nrows ≠ first.nrows) then
+    throw (.valueError "Cannot column_stack indexes with different number of rows.")
+  let nc ← stackCommon ixs newCommon
+  let (es, total) ← ixs.foldlM (stackStep nc) ([], 0)
   pure { entries := es, common := nc, shape := [first.nrows, total] }
 
 /-- `__eq__`: shape, common, number of entries, and each entry equal as a set
